@@ -170,13 +170,25 @@ class Check:
         return 1 if real else 0
 
 
+_DECLS = None
+
+
+def _decls(tier):
+    """enum declarations (configuration independent); shared by every imported evaluation"""
+    global _DECLS
+    if _DECLS is None:
+        import ctx as ctxmod
+        _DECLS = ctxmod.Ctx(tier).decls
+    return _DECLS
+
+
 def import_rows(chk, cfg, owner, modname, rules):
     """Evaluate, for one configuration, the rows of another property's module that this property depends on.
     A violation in an imported row is reported under the importing property too, tagged via=<owner>."""
     sub = Check(owner, chk.tier, chk.seed)
     sub.cfg = cfg.name
     m = __import__(modname, fromlist=["x"])
-    one = type("OneCfg", (), {"configs": lambda self, need_all_features=False: [cfg], "decls": {}, "tier": chk.tier,
+    one = type("OneCfg", (), {"configs": lambda self, need_all_features=False: [cfg], "decls": _decls(chk.tier), "tier": chk.tier,
                               "bitvec_version": lambda self: "1.1.1", "cfg": lambda self, n: cfg})()
     try:
         m.run(one, sub)
